@@ -6,8 +6,9 @@ use crate::exop::Exop;
 use crate::exop_impl::construct_exop;
 use crate::filter::Unescaper;
 use crate::ldap::Ldap;
-use crate::protocol::LdapCodec;
+use crate::protocol::{LdapCodec, LdapOp, MaybeControls, ResultSender};
 use crate::result::{LdapResult, LdapResultExt};
+use crate::RequestId;
 
 use bytes::BytesMut;
 use lber::structure::StructureTag;
@@ -89,4 +90,73 @@ pub fn unescaper_step(state: u8, v: u8, c: u8) -> (u8, u8) {
         Unescaper::Value(v) => (2, v),
         Unescaper::Error => (3, 0),
     }
+}
+
+/// What an operation queued for the connection driver, in plain data.
+pub struct QueuedOp {
+    pub id: i32,
+    /// "Single", "Search", "Abandon" or "Unbind"
+    pub kind: &'static str,
+    pub abandon_id: Option<i32>,
+    pub tag: Tag,
+    pub controls: Option<Vec<RawControl>>,
+}
+
+/// The driver's ends of a handle's channels, without a driver behind them.
+pub struct OpQueue {
+    rx: tokio::sync::mpsc::UnboundedReceiver<(RequestId, LdapOp, Tag, MaybeControls, ResultSender)>,
+    scrub_rx: tokio::sync::mpsc::UnboundedReceiver<RequestId>,
+    pending: Vec<ResultSender>,
+}
+
+impl OpQueue {
+    /// Next operation put on the request channel, if any; its reply sender is kept alive.
+    pub fn next(&mut self) -> Option<QueuedOp> {
+        let (id, op, tag, controls, tx) = self.rx.try_recv().ok()?;
+        self.pending.push(tx);
+        let (kind, abandon_id) = match op {
+            LdapOp::Single => ("Single", None),
+            LdapOp::Search(_) => ("Search", None),
+            LdapOp::Abandon(id) => ("Abandon", Some(id)),
+            LdapOp::Unbind => ("Unbind", None),
+        };
+        Some(QueuedOp {
+            id,
+            kind,
+            abandon_id,
+            tag,
+            controls,
+        })
+    }
+
+    /// Next ID put on the scrub channel, if any.
+    pub fn next_scrub(&mut self) -> Option<i32> {
+        self.scrub_rx.try_recv().ok()
+    }
+}
+
+/// A handle whose request and scrub channels end in an `OpQueue` instead of a driver.
+pub fn ldap_with_queue(last: i32, inuse: HashSet<i32>) -> (Ldap, OpQueue) {
+    let (tx, rx) = tokio::sync::mpsc::unbounded_channel();
+    let (id_scrub_tx, scrub_rx) = tokio::sync::mpsc::unbounded_channel();
+    let (misc_tx, _r3) = tokio::sync::mpsc::unbounded_channel();
+    let ldap = Ldap {
+        msgmap: Arc::new(Mutex::new((last, inuse))),
+        tx,
+        id_scrub_tx,
+        misc_tx,
+        has_tls: false,
+        last_id: 0,
+        timeout: None,
+        controls: None,
+        search_opts: None,
+    };
+    (
+        ldap,
+        OpQueue {
+            rx,
+            scrub_rx,
+            pending: Vec::new(),
+        },
+    )
 }
